@@ -1227,6 +1227,8 @@ func (v *variantCallPacket) UnmarshalBinary(data []byte) (err error) {
 	}
 	p = p[v.TransactionID.Size():]
 
+	// Without command object, drop the preset one, so that Size() is the number of bytes consumed.
+	v.CommandObject = nil
 	if len(p) > 0 {
 		if v.CommandObject, err = amf0.Discovery(p); err != nil {
 			return oe.WithMessage(err, "discovery command object")
